@@ -138,6 +138,10 @@ func perfOverlay(c *runCtx) []string {
 	subs := []sub{
 		{repoDir() + "/masswallet/keystore/snacl/snacl.go", "\tdebug.FreeOSMemory()\n", "\t_ = debug.FreeOSMemory\n", "snacl: FreeOSMemory neutralised"},
 		{repoDir() + "/masswallet/txmgr/utxostore.go", "count >= 20000", "count >= 2", "utxostore: credits per removal round scaled 20000 -> 2"},
+		// 3. asyncImport: the heights per rescan batch, the literal 1000, read from the hook
+		//    variable masswallet.VerifImportBatch (default 1000: nothing changes unless a
+		//    scenario sets it), so that short chains need several batches (C20, C07).
+		{repoDir() + "/masswallet/ntfnshandler.go", "stop = ws.SyncedHeight + 1000\n", "stop = ws.SyncedHeight + VerifImportBatch\n", "asyncImport: heights per rescan batch read from masswallet.VerifImportBatch (default 1000)"},
 	}
 	repl := map[string]string{}
 	c.Overlays = nil
